@@ -191,6 +191,30 @@ def span_spec(n, timeout, first=None):
                 bound=f"every string of <= {n} tokens over {ALPHA_SPAN!r}", meta={"kind": "span"})
 
 
+NL_CODE = r'''
+def render(tokens, nl):
+    return "".join(nl if t == "NL" else t for t in tokens)
+def summary(s):
+    c = classify(s)
+    return (c[0], [to_py(f) for f in c[1]] if c[0] == "ok" else None)
+'''
+ALPHA_NL = ["(", ")", "a", ";", " ", "NL", "'"]   # no string quote: a line ending inside a string literal is data
+
+
+def newline_spec(n, timeout, first):
+    args = ", ".join(f"i{j}: int" for j in range(n)) + ", n: int"
+    pre = [f"0 <= i{j} < {len(ALPHA_NL)}" for j in range(n)] + [f"1 <= n <= {n}"]
+    pre[0] = f"i0 == {first}"
+    body = f'''    A = {ALPHA_NL!r}
+    toks = [A[i] for i in [{", ".join("i%d" % j for j in range(n))}][:n]]
+    # the same text with LF, CR or CRLF line endings reads to the same forms / the same kind of error
+    a, b, c = summary(render(toks, "\\n")), summary(render(toks, "\\r")), summary(render(toks, "\\r\\n"))
+    return a == b and b == c'''
+    src = harness(args, body, pre=pre, module_code=COMMON + NL_CODE, warm=[])
+    return Spec(f"line-endings/LF=CR=CRLF/len<={n}/first={ALPHA_NL[first]!r}", src, timeout=timeout,
+                bound=f"every token string of <= {n} tokens over {ALPHA_NL!r}, each rendered with LF, CR and CRLF line endings", meta={"kind": "newline"})
+
+
 STREAM_CODE = r'''
 def ref_loc(text, pos, line0=1, col0=0):
     line, col = line0, col0
@@ -256,6 +280,7 @@ def run(rep, tier, seed):
     specs += [total_alpha_spec(na, to, f) for f in range(len(ALPHA_DELIM))]
     specs += [eof_spec(ne, to, f) for f in range(len(ALPHA_EOF))]
     specs += [span_spec(ns, to, f) for f in range(len(ALPHA_SPAN))]
+    specs += [newline_spec(4 if quick else 5, to * 2, f) for f in range(len(ALPHA_NL))]
     if not quick:
         specs += [total_unicode_spec(2, 1800)]
     rep.bounds = {"unicode": "thorough only: all strings of <= 1 / <= 2 code points (CrossHair needs > 150 s for one symbolic character: the reader classifies characters with regexes)",
